@@ -178,6 +178,30 @@ CHECKS = {
         'the transition that introduces them.',
         'Trusted: the canonical key is over-fine (rule kinds incl. nested, full serialisation, namespaces, encoding). @variables is not ordered by the statement; namespace resolution of selectors is judged in C15.',
     ),
+    'C14': (
+        'model_checking',
+        'explicit-state breadth-first search over registry operation histories on fresh Profiles objects with an over-fine state key, against a reference that recomputes verdicts from the registered definitions only',
+        'DESIGN.md 3/C14',
+        'BFS over addProfile / addProfiles (singles and ordered pairs) / removeProfile / removeProfile(all) / defaultProfiles assignments over six custom '
+        'profiles (new property, redefinition, token-macro override, general-macro override, private macro, override of a private macro) from the built-in '
+        'and the emptied registry, both with copied and with shared definition dicts, depth 5 (quick: 1 688 states, 39 584 transitions) / 6 (thorough). '
+        'In every state: add+remove of every unregistered profile restores the observation (49-pair verdict battery through validate and validateWithProfile, '
+        'knownNames, profiles, propertiesByProfile); states with equal contents have equal observations; validate == "some registered profile defining '
+        'the name accepts" computed by an independent reference; defaultProfiles changes only the matching component; unknown removal raises and changes nothing.',
+        'Trusted: mc/model/ref_profiles.py; "contents" = ordered sequence of registered profiles + defaultProfiles.',
+    ),
+    'C19': (
+        'exploration',
+        'bounded exhaustive enumeration of sheets with url() at every nesting level and of import trees over a virtual file system (every edge kind x media x availability x content), against a urljoin-based reference expansion',
+        'DESIGN.md 3/C19',
+        'getUrls/replaceUrls: all sheets with <=2 @import forms and <=2 rules (style, @media, @page with margin box, @font-face) with url() in two value '
+        'slots (22 566 sheets quick): enumeration order, identity / counting / tagging replacers, ignoreImportRules. Flattening: every import chain of '
+        'depth <=2 (quick) / <=3 (thorough) with 7 target locations x media x present/missing on every edge and 14 leaf contents, all 12 tree shapes '
+        'with <=k sites off default, through resolveImports and csscombine (normal/minified, target encoding none/ascii, path/url/cssText entry); the '
+        'flattened rules, their media wrapping, kept imports, every re-based URL (urljoin from the combined sheet == urljoin from the original) and the '
+        'fetch log are compared with the reference expansion.',
+        'Trusted: mc/model/ref_urls.py (urllib.parse.urljoin semantics); virtual fetcher replaces cssutils.util._defaultFetcher as the repository tests do.',
+    ),
 }
 
 PENDING = {}
